@@ -148,19 +148,21 @@ def containedFuel (cs : List Container) (root : Nat) : Nat → Parent → Bool
     | some k => containedFuel cs root f k.parent
     | none => false
   | f + 1, .comp c =>
-    c == root ||
+    -- `one(pe_pe).C_C[8003]()`: a Component_ID that names no C_C row is no container at all
     match findContainer cs true c with
-    | some k => containedFuel cs root f k.parent
+    | some k => c == root || containedFuel cs root f k.parent
     | none => false
 
 def containedIn (cs : List Container) (root : Nat) (p : Parent) : Bool :=
   containedFuel cs root (cs.length + 1) p
 
-/-- `is_global(pe_pe)`: no component on the way up -/
+/-- `is_global(pe_pe)`: no component on the way up (`one(pe_pe).C_C[8003]()`: a Component_ID that names no
+    C_C row does not count).  Fuel stands for the Python recursion; under `TreeOk` (Proofs/ExtractScope.lean) it
+    is never exhausted (`global_iff`). -/
 def globalFuel (cs : List Container) : Nat → Parent → Bool
   | 0, _ => true
   | _ + 1, .none => true
-  | _ + 1, .comp _ => false
+  | _ + 1, .comp c => (findContainer cs true c).isNone
   | f + 1, .pkg p =>
     match findContainer cs false p with
     | some k => globalFuel cs f k.parent
